@@ -220,6 +220,7 @@ func newWorld(bal map[string]currency.Coin, forks bool, slash float64, spMin uin
 		sw.NameKey(storagesc.ALL_VALIDATORS_KEY+encryption.Hash(":partition:"+strconv.Itoa(i)), fmt.Sprintf("part:validators:%d", i))
 	}
 	sw.NameKey(minersc.GlobalNodeKey, "minersc:global")
+	sw.NameKey(storagesc.AUTHORIZERS_COUNT_KEY, "zcn:auth-count")
 	w.B.MinerID = IDOf(10)
 	return sw, nil
 }
@@ -243,6 +244,8 @@ func classify(out string) string {
 		return "lock-small"
 	case has("too large stake to lock"):
 		return "lock-large"
+	case has("could not stake pool in"):
+		return "lock-deleted"
 	case has("max_delegates reached"):
 		return "max-delegates"
 	case has("no tokens to lock"):
@@ -464,6 +467,16 @@ func (r *runner) step(ws []string, prefix []string) string {
 			return "panic"
 		}
 		return join(r.call(c, SCOf(ws[1]), ws[0]+"_"+ws[1], fmt.Sprintf(`{"provider_id":%q}`, IDOf(rid)), 0, 1700000000))
+	case "delauth":
+		if len(ws) != 3 {
+			return "bad-op"
+		}
+		rid, ok1 := atoi(ws[1])
+		c, ok2 := atoi(ws[2])
+		if !ok1 || !ok2 {
+			return "bad-op"
+		}
+		return join(r.call(c, zcnsc.ADDRESS, "delete-authorizer", fmt.Sprintf(`{"id":%q}`, IDOf(rid)), 0, 1700000000))
 	case "reward":
 		if len(ws) != 4 || KindNum(ws[1]) == 0 {
 			return "bad-op"
@@ -731,7 +744,7 @@ func showSP(kind string, i int, sp map[string]interface{}, offers uint64, inner 
 		if !ok {
 			n = 1 << 30
 		}
-		ps = append(ps, pe{n, fmt.Sprintf("%d=%d/%d/%d", n, U64(d["Balance"]), U64(d["Reward"]), U64(d["StakedAt"]))})
+		ps = append(ps, pe{n, fmt.Sprintf("%d=%d/%d/%d/d%s", n, U64(d["Balance"]), U64(d["Reward"]), U64(d["StakedAt"]), b01(U64(d["Status"]) == 2))})
 	}
 	sort.Slice(ps, func(a, b int) bool { return ps[a].n < ps[b].n })
 	var pss []string
